@@ -7,15 +7,15 @@ import rtdiff
 
 def plan_roundtrip(pid, rng, quick):
     signal = {"C01": "traces", "C02": "logs", "C03": "metrics"}[pid]
-    n = 260 if quick else 6000
+    n = 260 if quick else 24000
     plan = []
     for i in range(n):
         plan.append(otap.rand_stream(rng, "rt/%s/%d" % (signal, i), signal, [pid]))
     # long streams: dictionary and schema state carried across many batches
-    for i in range(6 if quick else 60):
+    for i in range(6 if quick else 300):
         plan.append(otap.rand_stream(rng, "rt-long/%s/%d" % (signal, i), signal, [pid], nb=rng.choice([10, 15, 20])))
     # a few bigger batches (more parents per table, id deltas > 1 byte)
-    for i in range(4 if quick else 40):
+    for i in range(4 if quick else 160):
         plan.append(otap.rand_stream(rng, "rt-large/%s/%d" % (signal, i), signal, [pid], nb=2, size="large"))
     # big but valid batches (tens of thousands of attribute-bearing parents, still <= 65,535), first on the stream
     # (schema updates rebuild the record several times) and after a warm-up
@@ -27,13 +27,13 @@ def plan_roundtrip(pid, rng, quick):
         bs.append(otap.rand_batch(rng, rich=1))
         plan.append({"id": "rt-big/%s/%d" % (signal, i), "signal": signal, "opts": {}, "batches": bs, "props": [pid], "mode": 0, "nowire": True})
     # every sibling record of one shape (all attribute maps alike, every metric kind, exemplars / events / links with attributes)
-    for i in range(4 if quick else 40):
+    for i in range(4 if quick else 200):
         v = 1 + i % 3
         bs = [uniform_batch(rng, v), uniform_batch(rng, v), uniform_batch(rng, 1 + (v % 3)), otap.rand_batch(rng, rich=2)]
         plan.append({"id": "rt-uniform/%s/%d" % (signal, i), "signal": signal, "opts": otap.opts_random(rng) if i % 2 else {},
                      "batches": bs, "props": [pid], "mode": 0})
     # an emitted batch is a value of its own: the consumer is one or more batches behind the producer (queue, retry buffer)
-    for i in range(12 if quick else 150):
+    for i in range(12 if quick else 900):
         st = otap.rand_stream(rng, "rt-lag/%s/%d" % (signal, i), signal, [pid], nb=rng.choice([3, 4, 6]))
         if i % 3 == 0:      # the same input again: messages of equal size on the same sub-streams
             st["batches"] = [st["batches"][0]] + [{"resend": 1} for _ in range(len(st["batches"]) - 1)]
@@ -80,7 +80,7 @@ def ramp_history(rng, signal, regime, cap, nb):
 
 def plan_c08(pid, rng, quick):
     plan = []
-    n = 150 if quick else 4000
+    n = 150 if quick else 12000
     for i in range(n):
         signal = rng.choice(["traces", "logs", "metrics"])
         st = otap.rand_stream(rng, "ung/%s/%d" % (signal, i), signal, [], guarded=False,
@@ -89,7 +89,7 @@ def plan_c08(pid, rng, quick):
         st["nodecode"] = True
         plan.append(st)
     # sparse first batches: list / struct columns introduced with only zeros (in-domain, default options)
-    for i in range(120 if quick else 3000):
+    for i in range(120 if quick else 9000):
         signal = rng.choice(["metrics", "metrics", "traces", "logs"])
         st = otap.rand_stream(rng, "zero-first/%s/%d" % (signal, i), signal, [], nb=rng.choice([1, 2, 3]))
         for b in st["batches"][:1]:
@@ -117,7 +117,7 @@ def plan_c08(pid, rng, quick):
                 plan.append({"id": "parents/%s/%s/%d/%s" % (signal, with_, n_, pre), "signal": signal, "opts": {},
                              "batches": batches, "props": [], "mode": 2, "nowire": True, "nodecode": True})
     # dictionary regimes (valid input under every dictionary option)
-    for i in range(24 if quick else 300):
+    for i in range(24 if quick else 900):
         signal = rng.choice(["traces", "logs", "metrics"])
         d = rng.choice(["8", "8", "16", "", "none"])
         cap = {"8": 255, "16": 65535, "": 65535, "none": 300}[d]
@@ -134,7 +134,7 @@ def plan_c08(pid, rng, quick):
 
 def plan_c15(pid, rng, quick):
     plan = []
-    for i in range(120 if quick else 3000):
+    for i in range(120 if quick else 12000):
         signal = rng.choice(["traces", "logs", "metrics"])
         st = otap.rand_stream(rng, "mem/%s/%d" % (signal, i), signal, [], guarded=rng.random() < 0.7,
                               opts=otap.opts_random(rng) if rng.random() < 0.5 else None)
@@ -166,7 +166,7 @@ def plan_c15(pid, rng, quick):
                      "batches": [warm, dict(warm), big, dict(warm), otap.rand_batch(rng, rich=2)],
                      "props": [], "mode": 2, "nowire": True, "nodecode": True})
     # overflow / reset / rebuild paths
-    for i in range(18 if quick else 200):
+    for i in range(18 if quick else 600):
         signal = rng.choice(["traces", "logs", "metrics"])
         d = rng.choice(["8", "8", "16"]) if not quick else "8"
         cap = {"8": 255, "16": 65535}[d]
@@ -182,7 +182,7 @@ def plan_c15(pid, rng, quick):
 def plan_wire(pid, rng, quick):
     """C12 / C13: what an independent Arrow reader sees on the wire."""
     plan = []
-    for i in range(110 if quick else 2500):
+    for i in range(110 if quick else 9000):
         signal = rng.choice(["traces", "logs", "metrics"])
         o = otap.opts_random(rng) if rng.random() < 0.6 else {}
         st = otap.rand_stream(rng, "wire/%s/%d" % (signal, i), signal, [], opts=o, nb=rng.choice([2, 3, 5, 8]))
@@ -204,7 +204,7 @@ def plan_wire(pid, rng, quick):
                 plan.append({"id": "wire-uniform/%s/v%d/%d" % (signal, variant, rep), "signal": signal, "opts": o, "batches": bs,
                              "props": [], "mode": 0, "nodecode": True})
     dicts = ["8", "8", "16", "", "none", "32", "64"]
-    for i in range(30 if quick else 400):
+    for i in range(30 if quick else 1200):
         signal = rng.choice(["traces", "logs", "metrics"])
         d = rng.choice(dicts)
         cap = {"8": 255, "16": 65535, "": 65535, "none": 300, "32": 70000, "64": 70000}[d]
@@ -235,7 +235,7 @@ def plan_c04(pid, rng, quick):
         plan.append(st)
     # index-width state machine under the dictionary sub-lattice: ramps crossing 255 / 65535 / the limit
     dl = [("8", 255), ("16", 65535), ("", 65535), ("32", 65535), ("64", 65535), ("none", 300)]
-    for i in range(54 if quick else 600):
+    for i in range(54 if quick else 1500):
         signal = rng.choice(["traces", "logs", "metrics"])
         d, cap = rng.choice(dl)
         if cap > 1000 and quick and rng.random() < 0.85:
@@ -296,7 +296,7 @@ def plan_c07(pid, rng, quick):
                     plan.append({"id": "fault/%s/p%d/%s/f%d" % (signal, prefix, "-".join(map(str, op)), follow),
                                  "signal": signal, "opts": {}, "batches": bs, "props": [], "mode": 0, "nowire": True})
         # pairs of faults
-        for i in range(60 if quick else 1500):
+        for i in range(60 if quick else 8000):
             prefix = rng.choice([0, 1, 2])
             bs = [otap.rand_batch(rng, rich=rng.choice([1, 2]), twins=False) for _ in range(prefix)]
             fb = otap.rand_batch(rng, rich=2, twins=False)
@@ -326,7 +326,7 @@ def plan_c07(pid, rng, quick):
                     plan.append({"id": "established/%s/p%d/dup%d-%s" % (signal, prefix, i, "-".join(map(str, second))), "signal": signal,
                                  "opts": {}, "batches": bs, "props": [], "mode": 0, "nowire": True})
         # healthy streams: a well-formed batch on a healthy stream is decoded completely
-        for i in range(20 if quick else 300):
+        for i in range(20 if quick else 1200):
             plan.append(otap.rand_stream(rng, "healthy/%s/%d" % (signal, i), signal, []))
     return plan
 
@@ -334,7 +334,7 @@ def plan_c14(pid, rng, quick):
     """The same stream fed to consumers with limits from a few bytes to the default 70 MiB."""
     plan = []
     ladder = [16, 256, 1024, 4096, 16384, 65536, 262144, 1 << 20, 4 << 20, 70 << 20]
-    for i in range(40 if quick else 600):
+    for i in range(40 if quick else 1500):
         signal = rng.choice(["traces", "logs", "metrics"])
         st = otap.rand_stream(rng, "limit/%s/%d" % (signal, i), signal, [], nb=rng.choice([2, 3, 5]),
                               size=rng.choice(["small", "medium", "large"]))
@@ -342,7 +342,7 @@ def plan_c14(pid, rng, quick):
         st["nowire"] = True
         plan.append(st)
     # dictionary-heavy streams: retained dictionaries count against the limit
-    for i in range(12 if quick else 120):
+    for i in range(12 if quick else 300):
         signal = rng.choice(["traces", "logs", "metrics"])
         bs = ramp_history(rng, signal, rng.choice(["overflow", "cross"]), rng.choice([255, 2000]), rng.choice([4, 6]))
         for b in bs:
@@ -353,7 +353,7 @@ def plan_c14(pid, rng, quick):
 
 def plan_c16(pid, rng, quick):
     plan = []
-    for i in range(96 if quick else 1600):
+    for i in range(96 if quick else 4000):
         signal = rng.choice(["traces", "logs", "metrics"])
         st = otap.rand_stream(rng, "conc/%s/%d" % (signal, i), signal, [], nb=rng.choice([2, 3, 5]),
                               opts=otap.opts_random(rng) if rng.random() < 0.6 else None,
